@@ -7,8 +7,8 @@
    streams, prelude loading, panics) is not modelled — it is exercised through
    the real binary on every run (tools/props/c22.py). *)
 From Coq Require Import List String NArith.
-From NV Require Import Session.Resolver Session.Context Session.Cli Session.CliProofs
-     Session.Toy Session.CliExec Gen.CtxSkeleton.
+From NV Require Import Session.Resolver Session.Context Session.Toy Gen.CtxSkeleton.
+From NV Require Import Session.Cli Session.CliProofs Session.CliExec.
 Import ListNotations.
 
 Section C22.
@@ -23,7 +23,8 @@ Section C22.
             (show_print : P -> Out) (show_value : V -> list Out)
             (show_diag : failure M EA EB EC -> Out) (stopped : Out)
             (prelude_code : Code) (msg_prelude msg_init stopped_repl : Out)
-            (is_blank is_quit : Code -> bool).
+            (is_blank is_quit : Code -> bool)
+            (command : Code -> option (cmd Out)) (reset_ctx : ctx M Code A B C).
   Let cli := cli M M_eqb Code S importer parse A B C T1 T2 EA EB EC V P transform check run
                  k fuel join_lines Out show_print show_value show_diag stopped.
   Let outcomes c file exprs :=
@@ -120,8 +121,67 @@ Section C22.
              k fuel join_lines Out show_print show_value show_diag stopped
              prelude_code msg_prelude msg_init stopped_repl is_blank is_quit).
   Qed.
+  (* ---- phase 4: REPL commands (stdin lines under -i or without file/-e) ---- *)
+  Let repl_cmd := repl_cmd M M_eqb Code S importer parse A B C T1 T2 EA EB EC V P transform check run
+                           k fuel Out show_print show_value show_diag stopped_repl is_blank command reset_ctx.
+  Let repl := repl M M_eqb Code S importer parse A B C T1 T2 EA EB EC V P transform check run
+                   k fuel Out show_print show_value show_diag stopped_repl is_blank is_quit.
+
+  (* without commands other than quit/exit the REPL with commands is the one C22_args is about *)
+  Theorem C22_repl_plain :
+    (forall l, is_quit l = true <-> command l = Some (CQuit Out)) ->
+    forall lines c out,
+      (forall l, In l lines -> command l = None \/ command l = Some (CQuit Out)) ->
+      repl_cmd c lines out [] = repl c lines out.
+  Proof.
+    exact (repl_cmd_plain M M_eqb Code S importer parse A B C T1 T2 EA EB EC V P transform check run
+             k fuel Out show_print show_value show_diag stopped_repl is_blank is_quit command reset_ctx).
+  Qed.
+
+  (* the status is 0 or 1, and a failure is always reported on stderr *)
+  Theorem C22_repl_exit :
+    forall lines c out err,
+      (exit_status Out (repl_cmd c lines out err) = 0 \/ exit_status Out (repl_cmd c lines out err) = 1)
+      /\ (exit_status Out (repl_cmd c lines out err) = 1 -> stderr Out (repl_cmd c lines out err) <> []).
+  Proof.
+    intros. split.
+    - apply (repl_cmd_exit_0_or_1 M M_eqb Code S importer parse A B C T1 T2 EA EB EC V P transform check run
+               k fuel Out show_print show_value show_diag stopped_repl is_blank command reset_ctx).
+    - apply (repl_cmd_failure_on_stderr M M_eqb Code S importer parse A B C T1 T2 EA EB EC V P transform check run
+               k fuel Out show_print show_value show_diag stopped_repl is_blank command reset_ctx).
+  Qed.
+
+  (* a command with wrong arguments (`list foo`, `save a b`, `quit now`) writes to stderr but changes
+     neither the exit status nor stdout: "stderr is empty iff the status is 0" does NOT hold for REPL
+     input that contains such lines — it holds for files and -e (C22_streams) *)
+  Theorem C22_failing_commands_do_not_matter :
+    forall lines c out err,
+      exists err',
+        exit_status Out (repl_cmd c lines out err)
+        = exit_status Out (repl_cmd c (without_failing_commands Code Out is_blank command lines) out err')
+        /\ stdout Out (repl_cmd c lines out err)
+           = stdout Out (repl_cmd c (without_failing_commands Code Out is_blank command lines) out err').
+  Proof.
+    exact (failing_commands_do_not_matter M M_eqb Code S importer parse A B C T1 T2 EA EB EC V P transform check run
+             k fuel Out show_print show_value show_diag stopped_repl is_blank command reset_ctx).
+  Qed.
+
+  (* `reset`: the rest of the input runs on the re-initialised session (so a later line that uses an
+     earlier definition fails and the status becomes 1) *)
+  Theorem C22_reset :
+    forall l rest c out err,
+      is_blank l = false -> command l = Some (CReset Out) ->
+      repl_cmd c (l :: rest) out err = repl_cmd reset_ctx rest out err.
+  Proof.
+    exact (repl_cmd_reset M M_eqb Code S importer parse A B C T1 T2 EA EB EC V P transform check run
+             k fuel Out show_print show_value show_diag stopped_repl is_blank command reset_ctx).
+  Qed.
 End C22.
 
+Print Assumptions C22_repl_plain.
+Print Assumptions C22_repl_exit.
+Print Assumptions C22_failing_commands_do_not_matter.
+Print Assumptions C22_reset.
 Print Assumptions C22_args.
 Print Assumptions C22_no_prelude_implies_no_init.
 Print Assumptions C22_stdin_ignored_without_inspect.
@@ -151,4 +211,14 @@ Example C22_nonvacuous_args :
   = ("exit=0|out=2 ua" ++ rs ++ "1 ua|err=0")%string
   /\ show_cli_full_line current_skeleton ("E1" ++ tab ++ "i" ++ tab ++ "Z1 / 0" ++ tab ++ "Z2")%string
      = "exit=1|out=1|err=1"%string.
+Proof. vm_compute. split; reflexivity. Qed.
+
+(* REPL commands on the text-level instance: a failing command leaves a trace on stderr only; after
+   `reset` the earlier definition is gone *)
+Example C22_nonvacuous_commands :
+  show_cli_cmd_line current_skeleton
+    ("Zlet a = 1" ++ tab ++ "Zlist foo" ++ tab ++ "Za" ++ tab ++ "Zreset" ++ tab ++ "Za" ++ tab ++ "Z2")%string
+  = "exit=1|out=1|err=1"%string
+  /\ show_cli_cmd_line current_skeleton ("E7" ++ tab ++ "i" ++ tab ++ "Zquit now" ++ tab ++ "Z8" ++ tab ++ "Zexit" ++ tab ++ "Z9")%string
+     = ("exit=0|out=7" ++ rs ++ "8|err=1")%string.
 Proof. vm_compute. split; reflexivity. Qed.
